@@ -651,7 +651,14 @@ class Client:
                 group_starting_handle, group_ending_handle = struct.unpack_from(
                     '<HH', attribute_value
                 )
-                service_uuid = UUID.from_bytes(attribute_value[4:])
+                if len(attribute_value) > 4:
+                    service_uuid = UUID.from_bytes(attribute_value[4:])
+                else:
+                    # The declaration carries no UUID (128-bit UUID): it is the value
+                    # of the included service's declaration
+                    service_uuid = UUID.from_bytes(
+                        await self.read_value(group_starting_handle, no_long_read=True)
+                    )
                 included_service = ServiceProxy(
                     self, group_starting_handle, group_ending_handle, service_uuid, True
                 )
